@@ -442,6 +442,54 @@ def answer (ws : List String) : String :=
 
 end Disp
 
+namespace Util
+
+def sindAnswer (ws : List String) : String :=
+  match splitArrow ws with
+  | none => "bad-case"
+  | some (pre, post) =>
+    match pre.head?, kvOf pre "guard", kvOf pre "z", kvOf pre "src", kvOf pre "dest", kvOf post "out" with
+    | some ty, some g, some z, some src, some dest, some out =>
+      let zb := z == "1"
+      let arm := "sind-" ++ ty ++ "-" ++ g ++ (if zb then "-zero" else "-nonzero")
+      let failed := (sindClauses g zb src out).filter (fun c => !c.2)
+      if !failed.isEmpty then "propfail " ++ ",".intercalate (failed.map (·.1)) ++ " arm=" ++ arm
+      else if g == "?" then "diff arm=" ++ arm ++ " model=unknown-guard"
+      else
+        -- the regenerated arm, interpreted (`sindAssigns`); no arm for the type: nothing is assigned
+        let exp := if sindAssigns (if g == "none" then [] else [(ty, g)]) ty zb then src else dest
+        if out != exp then "diff arm=" ++ arm ++ " model=out:" ++ exp
+        else "ok arm=" ++ arm ++ (if g == "none" then " trivial" else "")
+    | _, _, _, _, _, _ => "bad-case"
+
+def parseArg (a : String) : Option DurJ :=
+  if a == "e" then some .empty else if a == "b" then some .bad
+  else if a.startsWith "o" then ((a.drop 1).toString.toInt?).map .ok else none
+
+def pdurAnswer (ws : List String) : String :=
+  match splitArrow ws with
+  | none => "bad-case"
+  | some (pre, post) =>
+    match kvOf pre "args", kvOf pre "cur", kvOf post "res", kvOf post "out" with
+    | some a, some c, some res, some o =>
+      let args := a.splitOn ","
+      let cur := c.splitOn ","
+      let out := o.splitOn ","
+      let arm := "pdur-" ++ toString args.length ++ "-" ++ res
+      let failed := (pdurClauses args cur out res).filter (fun c => !c.2)
+      if !failed.isEmpty then "propfail " ++ ",".intercalate (failed.map (·.1)) ++ " arm=" ++ arm
+      else match args.mapM parseArg, cur.mapM (·.toInt?) with
+        | some js, some cs =>
+          if js.length != cs.length then "bad-case" else
+          let r := parseDurations (js.zip cs)
+          let exp := "res=" ++ (if r.2 then "err" else "ok") ++ ";out=" ++ ",".intercalate (r.1.map toString)
+          if exp != "res=" ++ res ++ ";out=" ++ o then "diff arm=" ++ arm ++ " model=" ++ exp
+          else "ok arm=" ++ arm
+        | _, _ => "bad-case"
+    | _, _, _, _ => "bad-case"
+
+end Util
+
 /-- case kind `mgr`: the policy the model states (`Mgr.unknown_sections_policy`, `Mgr.display_hides_all_hidden`,
 `Mgr.dup_last_wins`): unknown components (objects and nulls) are kept by ToJSON, top-level keys that are no
 section group are dropped by json.Unmarshal, an undefined registered component is written with its defaults,
@@ -466,6 +514,8 @@ def mgrAnswer (ws : List String) : String :=
 def answer (ws : List String) : String :=
   if ws.head? == some "ident" then Ident.answer (ws.drop 1) else
   if ws.head? == some "disp" then Disp.answer (ws.drop 1) else
+  if ws.head? == some "sind" then Util.sindAnswer (ws.drop 1) else
+  if ws.head? == some "pdur" then Util.pdurAnswer (ws.drop 1) else
   if ws.head? == some "mgr" then mgrAnswer (ws.drop 1) else
   if ws.head? == some "src" then Src.answer (ws.drop 1) else
   if ws.head? == some "val" then Val.answer (ws.drop 1) else
